@@ -574,3 +574,127 @@ Proof.
                   [intros a b E; rewrite E; reflexivity|exact S]|].
   rewrite !map_map. apply leq_map_ext. intros a. rewrite !Qred_correct. unfold Qdiv. ring.
 Qed.
+
+(* ---------------------------------------------------------------------------------------------- *)
+(* number of output samples *)
+Lemma length_branch_out h dtms b n x : length (branch_out lowpass_fir h dtms b n x) = length x.
+Proof.
+  unfold branch_out. rewrite map_length.
+  destruct (b_abs_out b), (b_abs_in b); rewrite ?map_length, length_fir, ?map_length; reflexivity.
+Qed.
+Lemma length_stim_sum h dtms bs : forall taps x, length (stim_sum lowpass_fir h dtms bs taps x) = length x.
+Proof.
+  induction bs as [|b bs IH]; intros taps x; cbn [stim_sum]; [apply length_zeros|].
+  unfold ladd. rewrite length_zipw, length_branch_out, IH. apply Nat.min_id.
+Qed.
+Lemma pns_count h gamma dt p p2 taps g :
+  length (pns_axis lowpass_fir h gamma dt (S p) p2 taps g) = length g.
+Proof.
+  rewrite (leq_length _ _ (unpad_indices h gamma dt p p2 taps g)).
+  unfold pns_direct, pns_model. rewrite !map_length, length_stim_sum. apply length_dgdt0.
+Qed.
+
+Lemma slack_nonneg : 0 <= maxt_slack - 2 * teps.
+Proof. unfold Qle; simpl; lia. Qed.
+
+Lemma num_samples_raster N dt : (0 < N)%Z -> maxt_slack - 2 * teps < dt ->
+  num_samples (inject_Z N * dt + 2 * teps) dt = Z.to_nat N.
+Proof.
+  intros HN Hdt. pose proof slack_nonneg as He.
+  assert (Hd : 0 < dt) by lra.
+  unfold num_samples. f_equal. unfold Qceiling.
+  set (q := (maxt_slack - 2 * teps) / dt).
+  assert (Hq0 : 0 <= q) by (unfold q; apply Qle_shift_div_l; [assumption|lra]).
+  assert (Hq1 : q < 1) by (unfold q; apply Qlt_shift_div_r; [assumption|lra]).
+  assert (E : - ((inject_Z N * dt + 2 * teps - maxt_slack) / dt) == inject_Z (- N) + q).
+  { unfold q. rewrite inject_Z_opp. field. lra. }
+  rewrite (Qfloor_comp _ _ E).
+  rewrite (Qfloor_unique (inject_Z (- N) + q) (- N)%Z) by lra. lia.
+Qed.
+
+Lemma pp_end_spec p pts : pp_end (p :: pts) = fst (last (p :: pts) (0, 0)) + 2 * teps.
+Proof.
+  unfold pp_end, with_flanks. destruct p as [t0 v0].
+  set (L := (t0, v0) :: pts). set (tl := fst (last L (0, 0))).
+  change ((t0 - 2 * teps, 0) :: (t0 - teps, 0) :: L ++ [(tl + teps, 0); (tl + 2 * teps, 0)])
+    with (((t0 - 2 * teps, 0) :: (t0 - teps, 0) :: L) ++ [(tl + teps, 0); (tl + 2 * teps, 0)]).
+  change [(tl + teps, 0); (tl + 2 * teps, 0)] with ([(tl + teps, 0)] ++ [(tl + 2 * teps, 0)]).
+  rewrite app_assoc, last_last. reflexivity.
+Qed.
+
+Lemma length_sample f dt nt : length (sample f dt nt) = nt.
+Proof. unfold sample, centres. rewrite !map_length, seq_length. reflexivity. Qed.
+Lemma sample_nth f dt nt k : (k < nt)%nat ->
+  nth k (sample f dt nt) 0 = f ((inject_Z (Z.of_nat k) + centre_offset) * dt).
+Proof.
+  intros Hk. unfold sample, centres. rewrite map_map.
+  rewrite (nth_indep _ 0 ((fun i => f (centre dt i)) 0%nat)) by (rewrite map_length, seq_length; lia).
+  rewrite (map_nth (fun i => f (centre dt i))). rewrite seq_nth by lia. reflexivity.
+Qed.
+Lemma centre_offset_half : centre_offset == 1 # 2.
+Proof. reflexivity. Qed.
+
+(* ---------------------------------------------------------------------------------------------- *)
+(* norm and ok *)
+Lemma ok_iff nsq : ok_of nsq = true <-> Forall (fun s => s < 1) nsq.
+Proof.
+  unfold ok_of. rewrite forallb_forall, Forall_forall.
+  assert (L : ok_limit * ok_limit == 1) by reflexivity.
+  split; intros H s Hs; specialize (H s Hs); unfold below, ok_strict in *.
+  - apply Qltb_lt in H. rewrite L in H. exact H.
+  - apply Qltb_lt. rewrite L. exact H.
+Qed.
+Lemma norm_lt_1_iff n s : 0 <= n -> n * n == s -> (n < 1 <-> s < 1).
+Proof.
+  intros Hn E. rewrite <- E. split; intro H.
+  - apply Qle_lt_trans with (n * 1); [apply Qmult_le_l'; lra|lra].
+  - destruct (Qlt_le_dec n 1) as [|Hge]; [assumption|]. exfalso.
+    assert (1 * 1 <= n * n).
+    { apply Qle_trans with (n * 1); [lra|apply Qmult_le_l'; lra]. }
+    lra.
+Qed.
+Lemma normsq3_nth x : forall y z k, length y = length x -> length z = length x -> (k < length x)%nat ->
+  nth k (normsq3 x y z) 0 == nth k x 0 * nth k x 0 + nth k y 0 * nth k y 0 + nth k z 0 * nth k z 0.
+Proof.
+  induction x as [|a x IH]; intros [|b y] [|c z] k Hy Hz Hk; simpl in Hy, Hz, Hk; try lia.
+  destruct k as [|k]; cbn [normsq3 nth].
+  - apply Qred_correct.
+  - apply IH; lia.
+Qed.
+Lemma length_normsq3 x : forall y z, length y = length x -> length z = length x -> length (normsq3 x y z) = length x.
+Proof.
+  induction x as [|a x IH]; intros [|b y] [|c z] Hy Hz; simpl in *; try lia. rewrite IH; lia.
+Qed.
+
+(* structure of the result: every component is the per-axis chain of its own channel only *)
+Lemma calc_pns_structure lp gamma dt hx hy hz wx wy wz tx ty tz o :
+  calc_pns lp gamma dt hx hy hz wx wy wz tx ty tz = OK o ->
+  exists nt,
+    o_x o = pns_axis lp hx gamma dt (pad1_of hx hy hz dt) (pad2_of hx hy hz dt) tx (opt_sample wx dt nt) /\
+    o_y o = pns_axis lp hy gamma dt (pad1_of hx hy hz dt) (pad2_of hx hy hz dt) ty (opt_sample wy dt nt) /\
+    o_z o = pns_axis lp hz gamma dt (pad1_of hx hy hz dt) (pad2_of hx hy hz dt) tz (opt_sample wz dt nt) /\
+    o_normsq o = normsq3 (o_x o) (o_y o) (o_z o) /\
+    o_ok o = ok_of (o_normsq o).
+Proof.
+  unfold calc_pns. destruct (opt_end wx ++ opt_end wy ++ opt_end wz) as [|e es]; [discriminate|].
+  destruct (weights_bad hx || weights_bad hy || weights_bad hz); [discriminate|].
+  destruct (existsb (Nat.eqb 0) (firstn 3 tx ++ firstn 3 ty ++ firstn 3 tz)); [discriminate|].
+  intros E. inversion E; subst; clear E. cbn [o_x o_y o_z o_normsq o_ok].
+  eexists. repeat split; reflexivity.
+Qed.
+
+(* the runner's fast filter form gives the same per-axis result as the convolution form *)
+Lemma pns_axis_fast_eq h gamma dt p1 p2 taps g :
+  leq (pns_axis lowpass_fast h gamma dt p1 p2 taps g) (pns_axis lowpass_fir h gamma dt p1 p2 taps g).
+Proof.
+  unfold pns_axis, pns_model. apply Qmult_leq. apply leq_select.
+  apply leq_map; [intros a b E; rewrite E; reflexivity|].
+  generalize (dgdt dt (pad p1 p2 (to_tesla gamma g))) as X. intros X.
+  generalize taps. induction branches as [|b bs IH]; intros tp; cbn [stim_sum]; [reflexivity|].
+  unfold ladd. apply leq_zipw; [intros a b0 c d E1 E2; rewrite E1, E2; reflexivity| |apply IH].
+  unfold branch_out. apply Qmult_leq.
+  destruct (b_abs_out b); [apply abs_leq|]; apply fir_fast_eq.
+Qed.
+
+Lemma pct_cancel : pct * unpct == 1.
+Proof. reflexivity. Qed.
